@@ -74,9 +74,18 @@ def rule_pair_detach(ctx: RuleContext, p: Program, rid: str) -> None:
         origin: dict[str, str] = {}
         elem_of: dict[str, str] = {}     # loop variable -> iterable name
         loop_vars: dict[int, list[tuple[str, str]]] = {}
+        # a local bound once to a display of collections (children = (*operands, *ops)) stands for that display in a loop header
+        single: dict[str, list] = {}
+        for a_ in walk_no_nested(src):
+            tg_ = a_.targets[0] if isinstance(a_, ast.Assign) and len(a_.targets) == 1 else a_.target if isinstance(a_, ast.AnnAssign) and a_.value is not None else None
+            if isinstance(tg_, ast.Name):
+                single.setdefault(tg_.id, []).append(a_.value)
         for lp in [n for n in walk_no_nested(src) if isinstance(n, (ast.For, ast.comprehension))]:
             it = lp.iter
             tgt = lp.target
+            if isinstance(it, ast.Name) and len(single.get(it.id, [])) == 1 and isinstance(single[it.id][0], (ast.Tuple, ast.List)) \
+                    and any(isinstance(x, ast.Starred) for x in single[it.id][0].elts):
+                it = single[it.id][0]
             pairs: list[tuple[str, str]] = []
             if isinstance(it, ast.Name) and isinstance(tgt, ast.Name):
                 pairs.append((tgt.id, it.id))
